@@ -97,9 +97,22 @@ def _same(a, b, tol):
     return bool(abs(a - b) <= tol * max(abs(a), abs(b), 1e-300) + 0.0)
 
 
-def batch(rng, budget, deep, replay=None):
+def batch_for(*fragments):
+    """the batch / request-form oracle restricted to the classes whose module path contains one of the
+    fragments: the other properties quantify over points, not over how a point is written down, so a
+    family whose values depend on the form of the request (order, container, dtype, array re-use) does
+    not have the property at the points the theorems talk about"""
+    def run(rng, budget, deep, replay=None):
+        return batch(rng, budget, deep, replay, only=fragments)
+    run.__name__ = 'batch_for_' + '_'.join(fragments)
+    return run
+
+
+def batch(rng, budget, deep, replay=None, only=None):
     res = dict(evaluations=0, distinct_nontrivial=0, failures=[], samples=[])
     classes = catalog.discover()
+    if only:
+        classes = {p_: c_ for p_, c_ in classes.items() if any(f_ in p_.split(':')[0] for f_ in only)}
     sites = set()
     with warnings.catch_warnings(), _quiet(), np.errstate(all='ignore'):
         warnings.simplefilter('ignore')
@@ -146,6 +159,23 @@ def batch(rng, budget, deep, replay=None):
                                                np.array(sorted([A[i], extra[0]])), t), None))
                 # repeated call on the same object
                 variants.append(('again', s(A, t), i))
+                # a second object with the same parameters that has served another time (and other points) first
+                try:
+                    s2 = c(*(e.args() if e.args else ()), **kw)
+                    t_other = e.t(rng)
+                    try:
+                        s2(e.points(rng, max(e.min_n, 2)), t_other)
+                    except Exception:
+                        pass
+                    variants.append(('object-used-at-another-time', s2(A, t), i))
+                except Exception:
+                    pass
+                # the caller re-uses one array object and updates it in place between two calls:
+                # the value at a point may not depend on what the array held before
+                W = np.array(A[perm], copy=True)
+                s(W, t)
+                W[...] = A
+                variants.append(('request-array-updated-in-place', s(W, t), i))
                 if name == 'Mader':
                     # Mader's values are averages over cells whose width is derived from the batch
                     # (documented): only the repeated identical request is comparable here; that the
@@ -167,6 +197,43 @@ def batch(rng, budget, deep, replay=None):
             res['distinct_nontrivial'] += 1
             if not res['samples']:
                 res['samples'].append(dict(cls=path, n=n, point=A[i].tolist() if e.dim > 1 else float(A[i]), t=t))
+            # the same points given as an integer array and as a float array (ExactSolver.__call__ only does
+            # numpy.asarray, so an integer grid reaches _run as integers): same values
+            if not tol and name != 'Mader':
+                try:
+                    G_ = np.asarray(e.points(rng, 40), dtype=float)
+                    lo_, hi_ = np.min(G_, axis=0), np.max(G_, axis=0)
+                    I_ = np.unique(np.rint(G_), axis=0)
+                    I_ = I_[np.all((I_ >= lo_) & (I_ <= hi_), axis=-1)] if e.dim > 1 else I_[(I_ >= lo_) & (I_ <= hi_)]
+                    if len(I_) >= max(e.min_n, 1):
+                        sf = s(I_.astype(float), t)
+                        try:
+                            si = s(I_.astype(np.int64), t)
+                        except Exception as ex:
+                            si = None
+                            site = '%s:integer-request-raises' % name
+                            if site not in sites:
+                                sites.add(site)
+                                res['failures'].append(dict(
+                                    site=site, detail='%s: %s for integer-typed points that are accepted as floats'
+                                                      % (type(ex).__name__, str(ex)[:120]),
+                                    case=dict(cls=path, kind='integer-dtype', t=t, points=I_.tolist())))
+                        res['evaluations'] += 1
+                        if si is not None:
+                            for nm in names:
+                                bad = [k_ for k_ in range(len(I_)) if not _same(sf[nm][k_], si[nm][k_], 0)]
+                                if bad:
+                                    site = '%s:integer-request' % name
+                                    if site not in sites:
+                                        sites.add(site)
+                                        res['failures'].append(dict(
+                                            site=site, detail='field %s at the same point: %r for a float array, %r for an integer array'
+                                                              % (nm, sf[nm][bad[0]], si[nm][bad[0]]),
+                                            case=dict(cls=path, kind='integer-dtype', t=t,
+                                                      point=I_[bad[0]].tolist() if e.dim > 1 else float(I_[bad[0]]))))
+                                    break
+                except Exception:
+                    pass
             # grid-dependent solvers: a difference is within the documented resolution when it is
             # explained by moving the point by two cells of the internal grid
             bracket = None
